@@ -242,8 +242,12 @@ func checkC07(c C07Case) h.Outcome {
 			o.Violation = h.V("foreign-assertion-returned", "AssertionInfo.NameID %q", info.NameID)
 			return o
 		}
-		if resp.SignatureValidated != respTrusted {
-			o.Violation = h.V("flag-mismatch", "Response flag %v want %v", resp.SignatureValidated, respTrusted)
+		allFlagged := true
+		for _, a := range resp.Assertions {
+			allFlagged = allFlagged && a.SignatureValidated
+		}
+		if (resp.SignatureValidated && !respTrusted) || (!resp.SignatureValidated && !(allFlagged && plainTrusted)) {
+			o.Violation = h.V("flag-mismatch", "Response flag %v, all assertions flagged %v, but Response trusted=%v plaintext trusted=%v", resp.SignatureValidated, allFlagged, respTrusted, plainTrusted)
 			return o
 		}
 	}
